@@ -174,7 +174,20 @@ func funcSig(fn *ssa.Function) string {
 	} else if fn.Pkg != nil {
 		recv = "pkg:" + shortName(fn.Pkg.Pkg.Path())
 	}
-	return recv + "|" + shortName(fn.Signature.String())
+	// parameter and result names are not part of the fingerprint
+	tuple := func(t *types.Tuple) string {
+		var parts []string
+		for i := 0; i < t.Len(); i++ {
+			parts = append(parts, shortName(t.At(i).Type().String()))
+		}
+		return "(" + strings.Join(parts, ", ") + ")"
+	}
+	sig := "func" + tuple(fn.Signature.Params())
+	if fn.Signature.Variadic() {
+		sig += "..."
+	}
+	sig += " " + tuple(fn.Signature.Results())
+	return recv + "|" + sig
 }
 
 // renamedTo maps the current short name of a renamed function to the name it
